@@ -81,6 +81,7 @@ for _n, _w in (('none', 'nobody outdated'), ('first', 'user 0 outdated (height =
                ('second', 'user 1 outdated, user 0 one block short'), ('both', 'both outdated')):
     K('C09', 'K3.purge_' + _n, 'teos', _g + 'c09_k3_purge_' + _n,
       'filtered_block_connected at the boundary height, %s: exactly the users get_outdated_users selects leave memory and DB with their appointments/trackers; others bit-identical; height recorded' % _w)
+K('C09', 'K3.block_connected_no_users', 'teos', _g + 'c09_k3_block_connected_no_users', 'a block connected to a tower without registered users still records the height (any height, any configuration); the registration that follows starts at that height')
 K('C09', 'K4.disconnect', 'teos', _g + 'c09_k4_disconnect_height', 'block_disconnected(h): height := h-1, users untouched, expiry check honours it')
 K('C09', 'K5.register_new', 'teos', _g + 'c09_k5_register_new', 'new user: start = h, expiry = min(h+duration, u32::MAX), configured slots; memory == DB == receipt')
 K('C09', 'K5.renew', 'teos', _g + 'c09_k5_renew', 'renewal: expiry += duration (saturating), slots += configured (checked); refused renewal changes nothing; memory == DB == receipt')
@@ -448,6 +449,9 @@ M('C13', 'M6.retrier_end_state', 'retrier_end_state', 'after the back-off strate
 M('C02', 'M1.per_appointment_decrypt', 'per_appointment_decrypt', 'Watcher::handle_breaches: every appointment under a breached locator is decrypted from its own blob in its own loop iteration before anything is handed to the Responder (no penalty is broadcast for an appointment whose own blob does not yield it)')
 M('C13', 'M7.start_status', 'retrier_start_status', 'Retrier::start flags the tower TemporaryUnreachable on every path on which its status is not a subscription error, and marks the retrier Running, before the task is spawned: while a round runs the tower is never shown Unreachable (new appointments keep reaching the retrier) and the reported status is truthful')
 M('C14', 'M5.registration_extends', 'registration_extends', 'symbolic execution of WTClient::add_update_tower (32-bit bit-vectors for the receipt\'s and the known expiry / slots, booleans for every other test): a registration for a tower that is already known is stored only if its expiry AND its slots strictly exceed the known ones, whatever the tower\'s status')
+K('C19', 'K3.responder_index_follows_disconnect', 'teos', 'responder::verif_harness::c04_p2_disconnect_confirmed_elsewhere', 'Responder::block_disconnected removes the disconnected block from the Responder\'s index whether or not a tracker was confirmed in it (no tracker confirmed at that height in this shape): the index stays equal to the last N blocks of the active chain')
+M('C02', 'M2.block_order', 'responder_block_order', 'every completed path of Responder::filtered_block_connected clears the carrier\'s receipts (what was sent is remembered for one block only: a stale receipt would let a later breach be reported as responded without the node being given the penalty) and keeps the order of the steps')
+M('C12', 'M4.monitor_polls_always', 'monitor_polls_always', 'every iteration of ChainMonitor::monitor_chain polls the node (poll_best_tip) before it sleeps again, on every path and whatever the reachable flag says: the only code that raises the flag and wakes the Carrier keeps running during and after an outage')
 M('C08', 'M1.single_height_read', 'single_height_read', 'Watcher::add_appointment reads the tower height once per accepted request: the start block in the receipt and the one stored with the appointment are the same number whatever block events interleave')
 M('C06', 'M2.uuid_derivation', 'uuid_derivation', 'UUID::new hashes locator || full serialised user key (PublicKey::serialize): distinct users never share a uuid for the same locator')
 K('C11', 'K1.handle_reorged_panic_free', 'teos', _r + 'c04_p3_handle_reorged', 'handle_reorged_txs does not panic for any node reply to the dispute / penalty re-submission (incl. already-in-chain)')
